@@ -33,7 +33,7 @@ def _gen_event_facts():
 GEN = [_gen_event_facts]
 MANIFEST = {
   "text": "Proof on a Lean model of the event bus (registry with add_handler / remove_handler_by_key / remove_all_handlers_for_event / replace_handler / remove_handler(method) / remove_handler_by_event, callbacks identified by their equality class (bound methods equal by value, functools.partial only equal to itself), _post incl. its fast path, the event monitor and the call_soon bookkeeping, _run_handlers with snapshot / blocking_facility and _min_priority / kwargs merge / conditions / boolean and relay handling / exceptions, _process_event, and process_event_queue transcribed one loop iteration at a time with its stack of deques and with what an exception does to it): for ALL handler programs (handlers and callbacks that post, add, replace and remove handlers - also themselves and their peers while their own event is being dispatched - return _min_priority blocks, raise, resolve futures; any priorities, facilities, conditions, kwargs) and any history, every handler list stays sorted by descending priority with registration order among equals; the loop refines a single depth-first agenda for any number of iterations (events posted during a dispatch go before everything already waiting; the loop never ends with events or callbacks left), callbacks run only when nothing is pending, last-registered first, each at most once; each dispatch (plain, boolean, relay) in which nobody raises calls exactly the handlers of the snapshot taken when it begins that are not blocked by a _min_priority returned earlier in the same dispatch and whose condition holds on the merged kwargs, in list order, whatever the handlers do to the registry meanwhile; if a handler raises, what was delivered is a prefix of that list, the event's callback is not queued and the invocation of process_event_queue ends with its waiting events dropped, event_queue holding what the interrupted dispatch posted and callback_queue untouched (the model follows the code; MPF shuts down on such an exception); _min_priority never suppresses a handler without blocking facility and suppresses one with a facility only below the limit of 'all' or of its facility; with the event monitor on every post is queued and reported once; a wait_for_event future is resolved at most once. Translator tie: Gen/EventFacts.lean is regenerated from the AST of mpf/core/events.py on every check (sort key/direction and append in add_handler, copy iteration in _run_handlers, which end _post / _process_event / process_event_queue push and pop); the model driver runs with these facts and source_facts_canonical proves they are the ones the theorems are stated for, so a change of any of them in the source breaks a proof. Correspondence on every check: generated programs are executed on the real EventManager of a real machine from boot, a delay callback, an untimed and a timed switch handler, and the observation sequences (handler id, event, ordered merged kwargs; callback id, post serial, kwargs; monitor reports; resolved futures; invocations ended by an exception; what is left queued) are compared with the model driver's; an independent recursive reference interpreter and trace monitors check the property on the implementation trace (up to the first exception; after it only the safety monitors and the model comparison apply).",
-  "note": "Trusted: Lean kernel + {propext, Classical.choice, Quot.sound}; the hand-written model Model/EventBus.lean (tied by the generated facts for sort order, copy iteration and deque ends, otherwise validated by the differential runs); translate/event_facts.py (AST pattern matching; anything it does not recognise breaks the tie instead of being skipped); asyncio call_soon eventually running process_event_queue; BoolTemplate condition evaluation is modelled as key == int. Not modelled: re-entrant calls of process_event_queue from a handler (a finding on a tree without the guard: dispatches nest; generation is behind C01_REENTER=1, the model has the guarded behaviour = nothing happens), a _min_priority dict without 'all' (KeyError in the code), _silent posts, cancelled futures, add_async_handler, EventManager.stop, post from another thread, queue events (C02).",
+  "note": "Trusted: Lean kernel + {propext, Classical.choice, Quot.sound}; the hand-written model Model/EventBus.lean (tied by the generated facts for sort order, copy iteration and deque ends, otherwise validated by the differential runs); translate/event_facts.py (AST pattern matching; anything it does not recognise breaks the tie instead of being skipped); asyncio call_soon eventually running process_event_queue; BoolTemplate condition evaluation is modelled as key == int. Re-entrant calls of process_event_queue from a handler are generated (15% of extended cases; the model has the guarded behaviour of fix 059c2d2: nothing happens). Not modelled: a _min_priority dict without 'all' (KeyError in the code), _silent posts, cancelled futures, add_async_handler, EventManager.stop, post from another thread, queue events (C02).",
   "technique": "Lean 4 theorems (simulation of the deque stack by one agenda with a loop-head invariant, induction over steps/op lists/handler lists) on a hand model parameterised by facts translated from the source AST + differential correspondence with the real EventManager + independent reference interpreter",
   "translated": True,
  }
@@ -60,7 +60,7 @@ TRUSTED = [
     "an exception leaving process_event_queue is caught by the harness where the asyncio loop / DelayManager / "
     "SwitchController would receive it; what MPF does afterwards (shutdown) is not part of the model",
 ]
-ASSUMPTIONS = ["handlers do not call process_event_queue re-entrantly (unless C01_REENTER=1: needs the re-entrancy guard)",
+ASSUMPTIONS = [
                "a _min_priority dict always has the key 'all' (as every producer in mpf makes it); condition keys never "
                "hold bools; no _silent posts; futures are not cancelled",
                "queue events are covered by C02"]
@@ -73,7 +73,7 @@ WPID = 50000  # program ids of the wait handlers of wait_for_any_event (WPID + w
 # re-entrancy guard in process_event_queue the dispatches nest and callbacks run early (signature nested-dispatch); the
 # repair is commit `fix: make process_event_queue re-entrancy safe` on branch verif-C01-s3.  C01_REENTER=1 turns it on.
 import os
-REENTER = os.environ.get("C01_REENTER", "0") == "1"
+REENTER = os.environ.get("C01_REENTER", "1") == "1"     # on since the guard (fix 059c2d2) is in /repo
 
 
 # a handler record is [key, base priority, kwargs, condition, pid] or [..., ext] with
